@@ -325,6 +325,13 @@ def band_curve(draw, nk, center, rlo, rhi, cw=False):
 @st.composite
 def simple_curve(draw, nk="int", degrees=(1,), center=(0.0, 0.0), rlo=6.0, rhi=14.0,
                  cw=False, templates=True, nseg=(3, 7)):
+    curve = draw(_simple_curve(nk, degrees, center, rlo, rhi, cw, templates, nseg))
+    assume(no_collapsed_segment(curve))
+    return curve
+
+
+@st.composite
+def _simple_curve(draw, nk, degrees, center, rlo, rhi, cw, templates, nseg):
     if 2 in tuple(degrees) and nseg[0] <= 3 and draw(st.integers(0, 7)) == 0:
         return draw(fillet_curve(nk, center, rlo, rhi, cw))
     if 2 in tuple(degrees) and 1 in tuple(degrees) and nseg[0] <= 5 and draw(st.integers(0, 7)) == 0:
@@ -334,6 +341,12 @@ def simple_curve(draw, nk="int", degrees=(1,), center=(0.0, 0.0), rlo=6.0, rhi=1
     if templates and tuple(degrees) == (1,) and center == (0.0, 0.0) and draw(st.integers(0, 3)) == 0:
         return draw(template_polygon(nk, cw))
     return draw(star_curve(nk, center, rlo, rhi, nseg, degrees, cw))
+
+
+def no_collapsed_segment(curve) -> bool:
+    """snapping a small curve to a coarse grid can collapse a short segment to
+    a point; such a curve is not an input the library documents"""
+    return all(seg[0] != seg[-1] for seg in curve)
 
 
 # ------------------------------------------------------------ shape specs
